@@ -81,7 +81,8 @@ import json
 
 
 def correspondence(v, st, prop, cmd, model_kind, tier, seed, replay=None, profiles=("release", "checked"),
-                   extra=(), model_desc="", impl_desc="", kind_for=None, timeout=3000, only=None, case_file="cases.txt", strip_model=None):
+                   extra=(), model_desc="", impl_desc="", kind_for=None, timeout=3000, only=None, case_file="cases.txt", strip_model=None,
+                   canary_kind=None, canary_pick=None):
     """Generic differential run: harness (per profile) writes cases.txt / impl.txt / specfail.txt / stats.json,
     the extracted model replays cases.txt. Returns dict(stats, samples, evals, distinct, dis, spec_fail[(tag,line,outdir)])."""
     res = dict(stats={}, samples=[], evals=0, distinct=0, dis=0, spec_fail=[])
@@ -131,6 +132,13 @@ def correspondence(v, st, prop, cmd, model_kind, tier, seed, replay=None, profil
             if not ok:
                 st["broken"].append(msg)
                 continue
+            if canary_kind and (name == "gen" or replay) and tag == profiles[0]:
+                # the extraction canary: a sample of these very cases re-computed inside the kernel
+                cok, cn, cmsg = vlib.canary(prop, canary_kind, os.path.join(outdir, "cases.txt"), tier=tier, pick=canary_pick)
+                res["canary"] = dict(kind=canary_kind, examples=cn, ok=cok, detail=cmsg)
+                log("canary: " + cmsg)
+                if not cok:
+                    st["broken"].append(cmsg)
             if strip_model:
                 import re as _re
                 mp = os.path.join(outdir, "model.txt")
